@@ -323,7 +323,7 @@ Qed.
 
 Lemma open_last_spec db pre bL limit :
   iok (pre ++ [bL]) -> stored db (pre ++ [bL]) -> last (iabs (pre ++ [bL])) 0 <= limit ->
-  open_last db limit = Ok (map bw_desc pre, bL).
+  open_last db limit = Ok (map bw_desc pre, bL, []).
 Proof.
   intros Hok Hst Hl. unfold open_last. rewrite (st_meta _ _ Hst).
   pose proof (io_count _ Hok) as Hc.
@@ -338,7 +338,11 @@ Proof.
   rewrite last_opt_snoc, removelast_snoc.
   rewrite (st_blocks _ _ Hst bL) by (apply in_or_app; right; left; reflexivity).
   destruct (finish_parse bL limit Rb Hne) as [_ Hre]; [rewrite <- HlastL; exact Hl|].
-  rewrite Hre. reflexivity.
+  rewrite Hre. cbn [bind].
+  assert (Hemp : bw_empty bL = false).
+  { unfold bw_empty. destruct (reach_desc _ Rb) as [_ He]. rewrite He. unfold lenN.
+    destruct (bw_abs bL); [contradiction|]. apply N.eqb_neq. cbn [length]. lia. }
+  rewrite Hemp. reflexivity.
 Qed.
 
 Lemma meta_nonempty (bl : list bwriter) : bl <> [] -> flat_map desc_encode (map bw_desc bl) <> [].
@@ -361,7 +365,7 @@ Proof.
         unfold iw_abs; cbn [iw_frozen iw_bw app]; rewrite ?fresh_abs; try reflexivity; exact Logic.I.
   - pose proof (meta_nonempty (pre ++ [bL]) (snoc_ne _ _)) as Hmn.
     rewrite (st_meta _ _ Hst). destruct (flat_map desc_encode (map bw_desc (pre ++ [bL]))) eqn:Ef; [contradiction|].
-    rewrite (open_last_spec db pre bL limit Hok Hst Hl). cbn [bind fst snd].
+    rewrite (open_last_spec db pre bL limit Hok Hst Hl). cbn [bind].
     pose proof (io_blocks _ Hok) as Hb. apply blocks_ok_app in Hb. destruct Hb as [Hbp Hb]. cbn [blocks_ok] in Hb.
     destruct Hb as (Rb & Hne & Hidb & _).
     exists (mkIW (map bw_desc pre) [] bL (bw_last bL)), pre. split; [reflexivity|].
